@@ -668,3 +668,125 @@ MA('C03', 'halfcomplex inverse DFT copy regression', FOURF,
    'DiscreteFourierTransformInverse._call_pyfftw',
    'if self.halfcomplex and x.ndim > 1:...', 'pass',
    'DiscreteFourierTransformInverse._call_pyfftw')
+
+# ---- C07 / C08 / C09 ----------------------------------------------------------
+DEFF = 'odl/solvers/functional/default_functionals.py'
+MA('C07', 'arg scaling uses scaling not its square', PROX,
+   'proximal_arg_scaling.arg_scaling_prox_factory',
+   'prox = prox_factory(sigma * scaling_square)',
+   'prox = prox_factory(sigma * scaling)', 'proximal_arg_scaling')
+MA('C07', 'moreau inner factor', PROX,
+   'proximal_convex_conj.convex_conj_prox_factory',
+   'mult_inner = MultiplyOperator(1.0 / sigma, domain=space, range=space)',
+   'mult_inner = MultiplyOperator(sigma, domain=space, range=space)',
+   'proximal')
+MA('C07', 'l2 squared denominator', PROX,
+   'proximal_l2_squared.ProximalL2Squared._call',
+   'out.lincomb(1 / (1 + 2 * sig * lam), x)',
+   'out.lincomb(1 / (1 + sig * lam), x)', 'proximal_l2_squared')
+MA('C07', 'L1 norm bound to l2 prox', DEFF, 'LpNorm.proximal',
+   'return proximal_l1(space=self.domain)',
+   'return proximal_l2(space=self.domain)', 'LpNorm.proximal')
+MA('C07', 'left scalar mult prox ignores scalar', FUNF,
+   'FunctionalLeftScalarMult.proximal.proximal_left_scalar_mult',
+   'return self.functional.proximal(sigma * self.scalar)',
+   'return self.functional.proximal(sigma)',
+   'FunctionalLeftScalarMult.proximal')
+MA('C07', 'translation prox forgets to shift back', PROX,
+   'proximal_translation.translation_prox_factory',
+   'return ConstantOperator(y) + prox_factory(sigma) * (IdentityOperator(y.space) - ConstantOperator(y))',
+   'return prox_factory(sigma) * (IdentityOperator(y.space) - ConstantOperator(y))',
+   'proximal_translation')
+MA('C07', 'quadratic perturbation const', PROX,
+   'proximal_quadratic_perturbation.quadratic_perturbation_prox_factory',
+   'const = 1.0 / np.sqrt(sigma * 2.0 * a + 1)',
+   'const = 1.0 / np.sqrt(sigma * a + 1)',
+   'proximal_quadratic_perturbation')
+MA('C07', 'ProximalSum attribute regression', DEFF,
+   'IndicatorSumConstraint.proximal.ProximalSum._call',
+   'offset = 1 / x.size * (sum_value - x.ufuncs.sum())',
+   'offset = 1 / x.size * (self.sum_value - x.ufuncs.sum())',
+   'ProximalSum._call')
+MA('C07', 'conj l2 squared with g sign', PROX,
+   'proximal_convex_conj_l2_squared.ProximalConvexConjL2Squared._call',
+   'out.lincomb(1 / (1 + 0.5 * sig / lam), x, -sig / (1 + 0.5 * sig / lam), g)',
+   'out.lincomb(1 / (1 + 0.5 * sig / lam), x, sig / (1 + 0.5 * sig / lam), g)',
+   'proximal_convex_conj_l2_squared')
+MA('C07', 'composition factor', PROX,
+   'proximal_composition.proximal_composition_factory',
+   'return Id + 1.0 / mu * operator.adjoint * ((prox_muf - Ir) * operator)',
+   'return Id + operator.adjoint * ((prox_muf - Ir) * operator)',
+   'proximal_composition')
+MA('C08', 'left scalar conj drops inner scaling', FUNF,
+   'FunctionalLeftScalarMult.convex_conj',
+   'return self.scalar * self.functional.convex_conj * (1.0 / self.scalar)',
+   'return self.scalar * self.functional.convex_conj',
+   'FunctionalLeftScalarMult.convex_conj')
+MA('C08', 'scalar sum conj sign', FUNF, 'FunctionalScalarSum.convex_conj',
+   'return self.left.convex_conj - self.scalar',
+   'return self.left.convex_conj + self.scalar',
+   'FunctionalScalarSum.convex_conj')
+MA('C08', 'translation conj sign of linear term', FUNF,
+   'FunctionalTranslation.convex_conj',
+   'return FunctionalQuadraticPerturb(self.functional.convex_conj, linear_term=self.translation)',
+   'return FunctionalQuadraticPerturb(self.functional.convex_conj, linear_term=-self.translation)',
+   'FunctionalTranslation.convex_conj')
+MA('C08', 'L2NormSquared conj factor', DEFF, 'L2NormSquared.convex_conj',
+   'return 1.0 / 4 * L2NormSquared(self.domain)',
+   'return 1.0 / 2 * L2NormSquared(self.domain)', 'L2NormSquared.convex_conj')
+MA('C08', 'quadratic form conj regression', DEFF, 'QuadraticForm.convex_conj',
+   'return QuadraticForm(operator=0.25 * self.operator.inverse, constant=-self.constant)',
+   'return QuadraticForm(operator=self.operator.inverse, constant=-self.constant)',
+   'QuadraticForm.convex_conj')
+MA('C08', 'right scalar conj multiplies', FUNF,
+   'FunctionalRightScalarMult.convex_conj',
+   'return self.functional.convex_conj * (1 / self.scalar)',
+   'return self.functional.convex_conj * self.scalar',
+   'FunctionalRightScalarMult.convex_conj')
+MA('C08', 'infimal convolution conj difference', FUNF,
+   'InfimalConvolution.convex_conj',
+   'return self.left.convex_conj + self.right.convex_conj',
+   'return self.left.convex_conj - self.right.convex_conj',
+   'InfimalConvolution.convex_conj')
+MA('C08', 'quadratic perturb conj drops constant', FUNF,
+   'FunctionalQuadraticPerturb.convex_conj', 'if self.constant != 0:...',
+   'pass', 'FunctionalQuadraticPerturb.convex_conj')
+MA('C09', 'right scalar gradient misses outer factor', FUNF,
+   'FunctionalRightScalarMult.gradient',
+   'return self.scalar * self.functional.gradient * self.scalar',
+   'return self.functional.gradient * self.scalar',
+   'FunctionalRightScalarMult.gradient')
+MA('C09', 'sum lipschitz max', FUNF, 'FunctionalSum.__init__',
+   'Functional.__init__(self, space=left.domain...',
+   'Functional.__init__(self, space=left.domain, linear=left.is_linear and right.is_linear, grad_lipschitz=max(left.grad_lipschitz, right.grad_lipschitz))',
+   'grad_lipschitz')
+MA('C09', 'quadratic perturb gradient factor', FUNF,
+   'FunctionalQuadraticPerturb.gradient',
+   'return self.functional.gradient + 2 * self.quadratic_coeff * IdentityOperator(self.domain) + ConstantOperator(self.linear_term)',
+   'return self.functional.gradient + self.quadratic_coeff * IdentityOperator(self.domain) + ConstantOperator(self.linear_term)',
+   'FunctionalQuadraticPerturb.gradient')
+MA('C09', 'composition gradient without adjoint', FUNF,
+   'FunctionalComp.gradient.FunctionalCompositionGradient._call',
+   'return op.derivative(x).adjoint(func.gradient(op(x)))',
+   'return func.gradient(op(x))', 'FunctionalComp.gradient')
+MA('C09', 'quotient gradient sign', FUNF,
+   'FunctionalQuotient.gradient.FunctionalQuotientGradient._call',
+   'return 1 / divisorx * func.dividend.gradient(x) + -dividendx / divisorx ** 2 * func.divisor.gradient(x)',
+   'return 1 / divisorx * func.dividend.gradient(x) + dividendx / divisorx ** 2 * func.divisor.gradient(x)',
+   'FunctionalQuotient.gradient')
+MA('C09', 'numerical gradient weight regression',
+   'odl/solvers/functional/derivatives.py', 'NumericalGradient._call',
+   "if hasattr(weighting, 'const'):...", 'pass', 'NumericalGradient._call')
+MA('C09', 'right scalar lipschitz regression', FUNF,
+   'FunctionalRightScalarMult.__init__',
+   'Functional.__init__(self, space=func.domain...',
+   'Functional.__init__(self, space=func.domain, linear=func.is_linear, grad_lipschitz=np.abs(scalar) * func.grad_lipschitz)',
+   'grad_lipschitz')
+MA('C09', 'translation gradient at wrong point', FUNF,
+   'FunctionalTranslation.gradient',
+   'return self.functional.gradient * (IdentityOperator(self.domain) - self.translation)',
+   'return self.functional.gradient * (IdentityOperator(self.domain) + self.translation)',
+   'FunctionalTranslation.gradient')
+MA('C09', 'L2NormSquared gradient factor', DEFF, 'L2NormSquared.gradient',
+   'return ScalingOperator(self.domain, 2.0)',
+   'return ScalingOperator(self.domain, 1.0)', 'L2NormSquared.gradient')
